@@ -54,7 +54,7 @@ MANIFEST = {
     'technique': 'Coq proof (linear algebra over an abstract field, induction over netlists and trees) + in-Coq certificate checking of the probes against the MNA model regenerated from source + load-invariance search oracle',
 }
 
-KINDTAG = {'dc': 'KDc', 'transient': 'KTransient', 'ivp': 'KIvp', 'none': 'KTransient'}
+KINDTAG = {'dc': 'KDc', 'transient': 'KTransient', 'ivp': 'KIvp', 'none': 'KTransient', 'laplace': 'KLaplace'}
 FOUR = ('E', 'G', 'TF', 'GY', 'TP')
 
 
@@ -252,10 +252,12 @@ def tree_has_ic(t):
     return t[0] in ('C', 'L') and t[2] is not None
 
 
-def tree_eval(t, s, dc, buggy=False):
-    """exact (th, no) pairs: th = (Voc, Z) or None, no = (Isc, Y) or None.  buggy=True reproduces
-    ParSer.Voc / ParSer.Isc returning 0 when no INDEPENDENT source is below (initial conditions ignored) - used only to
-    fingerprint the known finding, never for a verdict"""
+def tree_eval(t, s, dc, buggy=False, ext=False):
+    """exact (th, no) pairs: th = (Voc, Z) or None, no = (Isc, Y) or None.
+    buggy=True reproduces ParSer.Voc / ParSer.Isc returning 0 when no INDEPENDENT source is below (initial
+    conditions ignored); ext=True also follows ideal sources / open circuits through series and parallel
+    combinations (a series chain containing an open circuit is an open circuit).  Both are used only to
+    fingerprint known findings, never for a verdict."""
     def has_src(t):
         if t[0] in ('ser', 'par'):
             return any(has_src(c) for c in t[1])
@@ -264,9 +266,13 @@ def tree_eval(t, s, dc, buggy=False):
     if k not in ('ser', 'par'):
         a, b, c = leaf_line(t, s, dc)
         return ((c / a, b / a) if a != 0 else None, (c / b, a / b) if b != 0 else None)
-    kids = [tree_eval(c, s, dc, buggy) for c in t[1]]
+    kids = [tree_eval(c, s, dc, buggy, ext) for c in t[1]]
     if k == 'ser':
         if any(x[0] is None for x in kids):
+            if ext:
+                forced = [x[1][0] for x in kids if x[0] is None and x[1] is not None and x[1][1] == 0]
+                if forced and len(set(forced)) == 1 and len(forced) == sum(1 for x in kids if x[0] is None):
+                    return (None, (forced[0], Fraction(0)))
             return (None, None)
         V = sum(x[0][0] for x in kids)
         Z = sum(x[0][1] for x in kids)
@@ -275,6 +281,10 @@ def tree_eval(t, s, dc, buggy=False):
             no = (Fraction(0), no[1])
         return ((V, Z), no)
     if any(x[1] is None for x in kids):
+        if ext:
+            forced = [x[0][0] for x in kids if x[1] is None and x[0] is not None and x[0][1] == 0]
+            if forced and len(set(forced)) == 1 and len(forced) == sum(1 for x in kids if x[1] is None):
+                return ((forced[0], Fraction(0)), None)
         return (None, None)
     I = sum(x[1][0] for x in kids)
     Y = sum(x[1][1] for x in kids)
@@ -347,8 +357,8 @@ CORPUS_NETS = [
 
 
 def gen_cases(rng, tier):
-    n_net = int(os.environ.get('VERIF_NCASES', 112 if tier == 'quick' else 900))
-    n_tree = int(os.environ.get('VERIF_NTREES', 48 if tier == 'quick' else 400))
+    n_net = int(os.environ.get('VERIF_NCASES', 80 if tier == 'quick' else 900))
+    n_tree = int(os.environ.get('VERIF_NTREES', 32 if tier == 'quick' else 400))
     cases = []
     for c in CORPUS_NETS:
         c = dict(c)
@@ -544,6 +554,7 @@ def build_net_items(ci, case, wr, tr, res):
                       expr='c_inv %s %d%%nat %d%%nat [%s]' % (sl['name'], sl['nn'], sl['mm'], '; '.join(xs(r) for r in B))))
     # Voc
     x_oc = solve(so['A'], so['Z'])
+    info['wellposed'] = x_oc is not None
     if x_oc is not None:
         info['model']['Voc'] = pvx(so, x_oc)
         for nm in ('Voc', 'thVoc'):
@@ -597,7 +608,9 @@ def build_net_items(ci, case, wr, tr, res):
                 if e_.get('_owner') in ('V', 'VCVS', 'CCVS', 'AM', 'TF', 'TR') and len(e_['nidx']) >= 2 and \
                         set(e_['nidx'][:2]) == {sl['pi'], sl['mi']}:
                     across = True
-            if p2 in ni and m2 in ni and not across:
+            if p2 in ni and m2 in ni and ni[p2] == ni[m2]:
+                res.count('transfer_skipped_output_nodes_merged')
+            elif p2 in ni and m2 in ni and not across:
                 a2, b2 = ni[p2], ni[m2]
                 info['model']['H'] = pvx(sl, x_y, a2, b2)
                 v = fr(api['H'])
@@ -627,7 +640,7 @@ def build_tree_items(ci, case, wr, res):
     if info['has_ic']:
         info['bth'], info['bno'] = tree_eval(t, s0, dc, buggy=True)
     if not dc:
-        info['dth'], info['dno'] = tree_eval(t, s0, True)     # C open, L short: the s -> 0 model
+        info['dth'], info['dno'] = tree_eval(t, s0, True, ext=True)     # C open, L short: the s -> 0 model
     # the harness evaluation of the tree is only used to decide WHICH comparisons make sense; the verdict is Coq's
     items.append(dict(label='%d/shape' % ci, probe='shape', role='main', defn=defn,
                       expr='Bool.eqb (has_th %s) %s && Bool.eqb (has_no %s) %s' % (name, 'true' if th else 'false', name, 'true' if no else 'false')))
@@ -683,6 +696,8 @@ def oracle(case, wr, info):
     """list of (name, detail) for every relation between Lcapy's own outputs that fails"""
     bad = []
     api = wr['api']
+    if case['mode'] == 'net' and not info.get('wellposed'):
+        return bad          # several signal kinds at once, unsupported class, or not well-posed at the point / at dc: no single line to test
     g = lambda k: fr(api.get(k))
     dc = (wr.get('kind') == 'dc') or (case['mode'] == 'oneport' and case['profile'] == 'dc')
     Voc, Isc, Z, Y = g('Voc'), g('Isc'), g('Z'), g('Y')
@@ -710,8 +725,14 @@ def oracle(case, wr, info):
                 bad.append(('line_nort', '(u, j) = %s of original+load is not on j = noIsc - noY u' % (lo,)))
         # exact intersection with the Coq-validated model values
         mv = info.get('model', {})
-        if not dc and 'Voc' in mv and 'Z' in mv and case.get('loadline'):
-            ex = intersect(mv['Voc'], mv['Z'], case['loadline'])
+        # (all-dc sources in a non-dc profile: Lcapy may analyse original+load at dc or as an initial value problem depending on
+        #  the load's initial conditions; the textbook line prepared for the profile does not apply)
+        if not dc and 'Voc' in mv and 'Z' in mv and case.get('loadline') and not (wr.get('groups') == ['dc'] and case['profile'] != 'dc'):
+            line = dict(case['loadline'])
+            if case['profile'] == 'dc':
+                # resistive circuit compared in the Laplace domain: a dc quantity d is reported as d/s0
+                line['E'] = str(Fraction(line['E']) / Fraction(case['s0']))
+            ex = intersect(mv['Voc'], mv['Z'], line)
             if ex is not None and ex != lo:
                 bad.append(('load_orig', 'original+load (u, j) = %s, exact Thevenin/load intersection %s' % (lo, ex)))
     if api.get('Zswap') is not None and fr(api.get('Zswap')) is not None and Z is not None and fr(api['Zswap']) != Z:
@@ -728,14 +749,16 @@ def oracle(case, wr, info):
 
 METHOD = {'Z': 'impedance', 'Y': 'admittance', 'thZ': 'thevenin', 'noY': 'norton', 'H': 'transfer',
           'Voc': 'Voc', 'Isc': 'Isc', 'thVoc': 'thevenin', 'noIsc': 'norton'}
-ORACLE_PROBES = {'ident_voc': ['Z'], 'ident_zy': ['Z', 'Y'], 'th_voc': [], 'th_z': [], 'no_isc': [], 'no_y': [],
-                 'load_thev': ['thZ'], 'load_nort': ['noY'], 'line_thev': ['thZ'], 'line_nort': ['noY']}
+ORACLE_PROBES = {'ident_voc': ['Voc', 'Isc', 'Z'], 'ident_zy': ['Z', 'Y'], 'th_voc': ['thVoc', 'Voc'], 'th_z': ['thZ', 'Z'],
+                 'no_isc': ['noIsc', 'Isc'], 'no_y': ['noY', 'Y'], 'load_thev': ['thVoc', 'thZ'], 'load_nort': ['noIsc', 'noY'],
+                 'line_thev': ['thVoc', 'thZ'], 'line_nort': ['noIsc', 'noY'], 'ground_swap_z': ['Z'], 'ground_z': ['Z'],
+                 'ground_swap_voc': ['Voc'], 'ground_voc': ['Voc'], 'load_orig': []}
 
 
 def classify(probe, failed, passed_diag, has_ic):
     """key for a correspondence difference of one probe in one case"""
     if has_ic and probe in ('Z', 'Y', 'thZ', 'noY', 'H') and (probe, 'icskept') in passed_diag:
-        return '%s:ics-kept' % METHOD[probe]
+        return 'NetlistOpsMixin.%s:ics-kept' % METHOD[probe]
     return 'correspondence:%s' % probe
 
 
@@ -779,7 +802,7 @@ def run(tier='quick', replay=None):
             c_['step'] = 10 if tier == 'quick' else 25
 
         def impl():
-            wres_box['r'] = core.run_impl('impl_thevenin.py', cases, timeout=1500 if tier == 'quick' else 7200)
+            wres_box['r'] = core.run_impl('impl_thevenin.py', cases, nproc=max(2, core.NCPU - 3), timeout=1500 if tier == 'quick' else 7200)
         th_impl = threading.Thread(target=impl)
         th_impl.start()
         # ---- prove ----
@@ -936,15 +959,13 @@ def run(tier='quick', replay=None):
                 for pb in main_failed:
                     keys[pb] = classify(pb, failed, passed, has_ic)
                     res.disagreements.append({'check': '%d/%s' % (ci, pb), 'key': keys[pb]})
-                explained = has_ic and main_failed and all(k.endswith(':ics-kept') for k in keys.values())
                 for nm, detail in orc:
+                    # an oracle failure is attributed to the known finding only when every probe it depends on that differs from
+                    # the model differs EXACTLY as the initial-conditions-kept model predicts (checked in Coq)
+                    rel = [pb for pb in ORACLE_PROBES.get(nm, []) if pb in keys]
                     key = 'oracle:' + nm
-                    if explained:
-                        cand = [pb for pb in ORACLE_PROBES.get(nm, []) if pb in keys]
-                        if nm in ('th_voc', 'th_z', 'no_isc', 'no_y'):
-                            cand = []
-                        if cand:
-                            key = keys[cand[0]]
+                    if has_ic and rel and all(keys[pb].endswith(':ics-kept') for pb in rel):
+                        key = keys[rel[-1]]
                     keys['oracle:' + nm] = key
             else:
                 # one-port trees: ParSer.Voc / ParSer.Isc return 0 unless an INDEPENDENT source is below (6-F9)
@@ -974,7 +995,12 @@ def run(tier='quick', replay=None):
                         key = 'OnePort.norton:zero-isc-dc-branch'
                     keys[pb] = key
                     res.disagreements.append({'check': '%d/oneport.%s' % (ci, pb), 'key': key})
-                explained = bool(main_failed) and all(k.startswith('OnePort.') for k in keys.values())
+                # the dc branch with an infinite immittance: thevenin() returns R(zoo) / norton() returns G(zoo): no rational value to compare
+                if isinstance(api.get('thZ'), dict) and th_ is not None and th_[0] == 0 and info.get('dno') is not None and info['dno'][1] == 0:
+                    keys['thZ'] = 'OnePort.thevenin:zero-voc-dc-branch'
+                if isinstance(api.get('noY'), dict) and no_ is not None and no_[0] == 0 and info.get('dth') is not None and info['dth'][1] == 0:
+                    keys['noY'] = 'OnePort.norton:zero-isc-dc-branch'
+                explained = bool(keys) and all(k.startswith('OnePort.') for k in keys.values())
                 for nm, detail in orc:
                     key = 'oracle:oneport.' + nm
                     if explained:
